@@ -1333,3 +1333,25 @@ func withHelperBodies(fn *ssa.Function) []instrAt {
 	}
 	return out
 }
+
+// isFieldOfType: v is a load of a struct field whose type is t (a configuration value kept in a field,
+// whatever the field is called).
+func isFieldOfType(v ssa.Value, t types.Type) bool {
+	_, f := fieldLoad(v)
+	return f != nil && types.Identical(f.Type(), t)
+}
+
+// isBoolFuncField: v is a load of a struct field holding a predicate (a function returning bool).
+func isBoolFuncField(v ssa.Value) bool {
+	_, f := fieldLoad(v)
+	if f == nil {
+		return false
+	}
+	sg, ok := f.Type().Underlying().(*types.Signature)
+	return ok && sg.Results().Len() == 1 && isBool(sg.Results().At(0).Type())
+}
+
+func isString(t types.Type) bool {
+	b, ok := t.Underlying().(*types.Basic)
+	return ok && b.Info()&types.IsString != 0
+}
